@@ -205,6 +205,16 @@ def rule_err(ctx, f):
     if not ctx.floor("C18-ERR", len(elem), 1, "call of T::from_primitive in the Option reader"):
         return M, W
     res_local = elem[0][1]["dest"][0]
+    # no other loading step of the Option reader hands its error on with `?`: such an error never meets the predicate
+    for bb in f.with_closures(ob["id"]):
+        bfl = Flow(bb)
+        for bi, t in F.calls(bb):
+            if last_seg(F.callee_name(t)) == "branch" and t["args"] and F.op_local(t["args"][0]) is not None:
+                srcs = sorted({last_seg(a[1]) for a in bfl.origins(F.op_local(t["args"][0]), passthrough=("map_err", "and_then", "map", "ok_or", "ok_or_else")) if a[0] == "call"} &
+                              {"resolve", "resolve_flags", "get", "from_primitive", "stream_data", "resolve_ref", "get_data"})
+                ctx.check(not srcs, "C18-ERR", "<Option<T> as Object>::from_primitive#no-early-exit", "the Option reader hands an error of %s on with `?`: a reference to a missing or free "
+                          "object fails the optional entry (and with it the whole object) instead of reading as absent" % ", ".join(srcs), t["span"],
+                          detail="errors of loading steps are inspected, not propagated")
     # predicate calls on the error
     preds = []
     for bi, t in F.calls(ob):
@@ -574,6 +584,29 @@ def rule_vec_reader(ctx, f, rid):
     bad = sorted({n for n in names if n in ITER_BAD})
     ctx.check(not bad, rid, "Vec<T>#in-order", "the array reader applies %s to the elements: null placeholders or other entries are dropped / moved, so an entry that is "
               "paired by position with another array (the i-th /DecodeParms with the i-th /Filter) goes to the wrong partner" % bad, b["span"], detail="into_iter().map(T::from_primitive).collect()")
+    # ... every one of them: a turn of an explicit loop, or a call of the mapping closure, cannot get past an element without reading it
+    is_elem = lambda t: t.get("callee") == "object::Object::from_primitive" and (t.get("self_ty") or {}).get("k") == "param"
+    nel = 0
+    for bb in f.with_closures(b["id"]):
+        ec = [bi for bi, t in F.calls(bb) if is_elem(t)]
+        if not ec:
+            continue
+        nel += len(ec)
+        cfg2 = CFG(bb)
+        if bb["kind"] == "Closure":
+            rets = [i for i, blk in enumerate(bb["blocks"]) if blk["term"]["k"] == "return"]
+            every = all(cfg2.all_paths_pass(0, [r_], set(ec)) for r_ in rets)
+        else:
+            loops2 = cfg2.loops()
+            every = True
+            for e in ec:
+                for h, blk in loops2.items():
+                    if e in blk:
+                        backs = [a_ for a_, h2 in cfg2.back_edges() if h2 == h]
+                        every = every and all(cfg2.all_paths_pass(h, [a_], set(ec)) for a_ in backs)
+        ctx.check(every, rid, "Vec<T>#every-element@" + bb["id"].split("::")[-1], "an element of the array can be passed over without being read (a `continue`, an early return of the "
+                  "mapping closure): the elements behind it move one position forward", bb["span"], detail="every element goes through T::from_primitive")
+    ctx.floor(rid, nel, 1, "element reads in the Vec reader")
     # the Reference arm
     from tables import enum_switches, exclusive_regions
     sws = enum_switches(b, "primitive::Primitive", f)
@@ -624,6 +657,35 @@ def rule_size(ctx, f):
                 ok = im.get("trait") == "object::Updater" and im.get("self", "").startswith("file::Storage<")
                 ctx.check(ok, "C18-SIZE", bid + "#push", "%s appends to the cross-reference table outside create / promise" % bid, t["span"], detail="XRefTable::push from Updater::create / promise")
     ctx.floor("C18-SIZE", n, 4, "sites that size the table (new: push + resize, push; create, promise)")
+    # on load the table gets /Size slots: the argument of XRefTable::new is the trailer's /Size and nothing else (not the highest number some
+    # section happens to list)
+    m = 0
+    for bid, b in f.bodies.items():
+        if bid.startswith("xref::"):
+            continue
+        for bi, t in F.calls(b):
+            if F.callee_name(t) != "xref::XRefTable::new" or not t["args"]:
+                continue
+            fl = Flow(b)
+            l = F.op_local(t["args"][0])
+            ats = fl.origins(l) if l is not None else []
+            keys = set()
+            for a in ats:
+                if a[0] == "call" and a[1].startswith("primitive::Dictionary::get") and len(a[3]["args"]) > 1:
+                    k = F.const_str(a[3]["args"][1])
+                    if k is None and F.op_local(a[3]["args"][1]) is not None:
+                        ks = [x[1]["str"] for x in fl.origins(F.op_local(a[3]["args"][1])) if x[0] == "const" and isinstance(x[1], dict) and "str" in x[1]]
+                        k = ks[0] if len(ks) == 1 else None
+                    keys.add(k)
+            names = {last_seg(a[1]) for a in ats if a[0] == "call"}
+            plain = names <= {"get", "ok_or_else", "ok_or", "as_u32", "as_usize", "as_integer", "as_u64", "branch", "from_residual", "into", "from", "try_into", "try_from", "unwrap", "expect", "read_xref_and_trailer_at"}
+            if l is None:
+                continue        # a constant (an empty document)
+            m += 1
+            ctx.check(keys == {"Size"} and plain, "C18-SIZE", bid + "#sized-by-Size", "the table read from a file is sized by %s (through %s), not by the trailer's /Size alone: objects "
+                      "numbered at or beyond /Size become defined" % (sorted(str(k) for k in keys) or "something else", sorted(names - {"get", "branch", "from_residual"})),
+                      t["span"], detail="XRefTable::new(trailer[/Size])")
+    ctx.floor("C18-SIZE", m, 1, "XRefTable::new with a computed size (the loader)")
 
 
 def run(ctx):
